@@ -175,12 +175,14 @@ impl UtpStreamReadHalf {
     ) -> Poll<std::io::Result<usize>> {
         let mut written = 0usize;
         let mut dispatcher_dead = false;
+        let mut wants_bytes = false;
 
         while let Some(current_buf) = bufs.first_mut() {
             if current_buf.is_empty() {
                 bufs = &mut bufs[1..];
                 continue;
             }
+            wants_bytes = true;
             // If there was a previous message we haven't read till the end, do it.
             if let Some(current) = self.current.as_mut() {
                 let payload = &current.payload[current.offset..];
@@ -242,7 +244,8 @@ impl UtpStreamReadHalf {
             return Poll::Ready(Ok(written));
         }
 
-        if self.is_eof {
+        // Nothing to wait for when there's no room to read into (no waker was registered either).
+        if self.is_eof || !wants_bytes {
             return Poll::Ready(Ok(0));
         }
 
